@@ -26,7 +26,8 @@ EXTENDS Integers, Sequences, FiniteSets, TLC, Json
 
 CONSTANTS TraceFile,
           Mode      \* "lin": linearizability (C08);  "metrics": accounting of removals (C18), see MetricDelete below;
-                    \* "lin-syncjanitor": "lin" plus the named deviation of SyncMap's janitor (see Cleanup)
+                    \* "lin-syncjanitor" / "lin-syncexpire" / "lin-syncall": "lin" plus the named deviations of SyncMap
+                    \* (known findings KF-C08-1 / KF-C08-2, see DevJ / DevE)
 Trace == ndJsonDeserialize(TraceFile)
 
 VARIABLES l, st, pend, ever, removed
@@ -34,6 +35,15 @@ VARIABLES l, st, pend, ever, removed
 vars == <<l, st, pend, ever, removed>>
 
 Absent == [v |-> "-", cls |-> "-"]
+
+(* Named deviations of SyncMap (never enabled for the sharded maps, and only used to CLASSIFY a sub-history that the    *)
+(* strict mode rejected):                                                                                              *)
+(*  DevJ  the janitor checks an entry and then deletes BY KEY: a Write of the key that overlaps the cycle (Cleanup line  *)
+(*        with quiet = FALSE) can be lost;                                                                              *)
+(*  DevE  ExpireAll updates the expiration IN PLACE with its own start time: a Read that overlaps it (Read line with     *)
+(*        quiet = FALSE) and sampled its clock earlier can take an expired entry for fresh.                             *)
+DevJ == Mode \in {"lin-syncjanitor", "lin-syncall"}
+DevE == Mode \in {"lin-syncexpire", "lin-syncall"}
 Ev == Trace[l]
 
 SeqToSet(s) == {s[i] : i \in DOMAIN s}
@@ -44,6 +54,7 @@ Apply(o, s) ==
   CASE o.op = "Write" -> {[v |-> o.v, cls |-> o.cls]}
     [] o.op = "Read" ->
          IF (o.res = "hit" /\ s # Absent /\ s.cls = "fresh" /\ s.v = o.rv)
+            \/ (DevE /\ ~o.quiet /\ o.res = "hit" /\ s # Absent /\ s.v = o.rv)
             \/ (o.res = "expired" /\ s # Absent /\ s.cls \in {"stale", "old"} /\ s.v = o.rv)
             \/ (o.res = "notfound" /\ s = Absent)
            THEN {s} ELSE {}
@@ -58,7 +69,7 @@ Apply(o, s) ==
     [] o.op = "Cleanup" ->
          \* Named deviation (known finding KF-C08-1, SyncMap only, Mode "lin-syncjanitor"): SyncMap's janitor checks an
          \* entry and then deletes BY KEY, so a Write of the key that overlaps the cycle (o.quiet = FALSE) can be lost.
-         IF Mode = "lin-syncjanitor" /\ ~o.quiet
+         IF DevJ /\ ~o.quiet
            THEN {IF s # Absent /\ s.cls = "old" THEN Absent ELSE s, Absent}
            ELSE {IF s # Absent /\ s.cls = "old" THEN Absent ELSE s}
     [] o.op = "Evict" -> {s, Absent}          \* eviction may take any entry; rank order is property C12
